@@ -544,6 +544,13 @@ def unknown_well(ctx, rule: str = "C08.unknown-well") -> None:
     from . import c03
 
     ctx.reuse(rule, c03.check_before_emit)
+    # ... and the lookup sees every named well: aspirate/dispense hand the full, unfiltered well list to the tracking call
+    from . import c01
+    from .common import concrete_devices
+
+    for dev in concrete_devices(ctx):
+        for meth, track, kind_ in (("aspirate", "remove", "A"), ("dispense", "add", "D")):
+            ctx.reuse(rule, c01.pair_ad, dev, meth, track, kind_)
     for kind in ("add", "remove"):
         f = ctx.prog.require_func(f"Labware.{kind}", rule)
         fv = ctx.fv(f)
